@@ -1,7 +1,9 @@
 import BigtoolsModel.FView
 import BigtoolsModel.ChunkLines
 import BigtoolsModel.IndexerProof
-import BigtoolsModel.AtomsGen
+import BigtoolsModel.AtomsFView
+import BigtoolsModel.AtomsIX
+import BigtoolsModel.AtomsCH
 /-! # C18 — slicing a text input for parallel work loses nothing and reorders nothing
 
 Models: `FView.stepView` (`FileView::read` / `seek`), `CH.split` (`split_file_into_chunks_by_size`),
